@@ -6,6 +6,7 @@ import BctVerif.Lemmas.DistMeanSpec
 import BctVerif.Lemmas.DistBinTerm
 import BctVerif.Lemmas.DistReachdist
 import BctVerif.Lemmas.DistBfsModel
+import BctVerif.Lemmas.DistEcc
 
 /-!
 # C03 — shortest-path distance matrices equal true minimum path lengths
@@ -290,6 +291,27 @@ theorem breadthdist_total (A : AMat Rat n) (hdiag : ∀ i, A.get i i = 0) : ∃ 
   obtain ⟨r, hr⟩ := Option.isSome_iff_exists.mp this
   exact ⟨r.1, r.2, hr⟩
 
+/-- **`breadth_branch_spec`**: the predecessor vector of `breadth(CIJ, source)` on a matrix with empty diagonal:
+`branch[source] = -1`, and for every reached `v ≠ source`, `branch[v]` is a node `u` with a connection `u → v` whose
+recorded distance is exactly one less (`distance[source]` read as 0) — so following `branch` from `v` walks a shortest
+path back to the source -/
+theorem breadth_branch_spec (A : AMat Rat n) (hdiag : ∀ i, A.get i i = 0) (s : Fin n) (r : BSt n) (h : breadth A s = some r) :
+    r.branch[s] = -1 ∧ ∀ v, v ≠ s → (r.dist[v]).toLen < ⊤ →
+      ∃ u : Fin n, r.branch[v] = (u.val : ℤ) ∧ A.get u v ≠ 0 ∧
+        (r.dist[v]).toLen = (if u = s then 0 else (r.dist[u]).toLen) + 1 := by
+  have hb := breadth_branch A hdiag s r h
+  have hi := breadth_final A hdiag s r h
+  refine ⟨hb.1, ?_⟩
+  intro v hvs hfin
+  have hc : r.color[v] ≠ 0 := by
+    intro hc
+    have := hi.white v hc
+    simp only [absB, if_neg hvs] at this
+    rw [this] at hfin; exact lt_irrefl _ hfin
+  obtain ⟨u, e1, e2, e3⟩ := hb.2 v hvs hc
+  refine ⟨u, e1, e2, ?_⟩
+  simpa [absB, hvs] using e3
+
 /-! ## the five routines agree wherever their domains overlap -/
 
 theorem agree_off_diag {L : LMat n} (X Y : AMat Ext n) (hX : IsDist L (zeroDiag' (lenFun X))) (hY : IsDist L (lenFun Y))
@@ -516,6 +538,70 @@ theorem charpath_spec_finite_only {L : LMat n} (hL : ∀ i j, 0 < L i j) (D : AM
     rw [meanExt_fin vals hv hfin, meanExt_fin _ (by simpa using hv) hfin2, List.length_map, List.map_map]
     rfl
 
+/-- **`charpath_ecc_spec`** (`charpath` defaults): for a matrix `D` that is, off its diagonal, the distance matrix of `L`
+(the output of any of the five routines), `ecc[i]` is attained by a distance from `i` to another node, bounds all of them,
+and is `∞` exactly when some other node cannot be reached from `i` -/
+theorem charpath_ecc_spec {L : LMat n} (D : AMat Ext n) (hD : IsDist L (zeroDiag' (lenFun D))) (hn : 2 ≤ n) (i : Fin n) :
+    (∃ j, j ≠ i ∧ eccOf D false true i = D.get i j) ∧
+    (∀ j, j ≠ i → lenFun D i j ≤ (eccOf D false true i).toLen) ∧
+    ((eccOf D false true i).toLen = ⊤ ↔ ∃ j, j ≠ i ∧ ¬ ∃ p, walkEnd i p = j ∧ walkLen L i p < ⊤) := by
+  obtain ⟨_, hne⟩ := eccOf_spec D false true i
+  have hcells : ∀ x, x ∈ eccCells D false true i ↔ ∃ j, j ≠ i ∧ x = D.get i j := by
+    intro x
+    rw [mem_eccCells]
+    constructor
+    · rintro ⟨j, hj, rfl, _⟩
+      rcases hj with hj | hj
+      · exact absurd hj (by decide)
+      · exact ⟨j, Ne.symm hj, rfl⟩
+    · rintro ⟨j, hj, rfl⟩; exact ⟨j, Or.inr (Ne.symm hj), rfl, Or.inl rfl⟩
+  have hex : ∃ j : Fin n, j ≠ i := by
+    by_cases h0 : i.val = 0
+    · exact ⟨⟨1, by omega⟩, fun e => by have := congrArg Fin.val e; simp at this; omega⟩
+    · exact ⟨⟨0, by omega⟩, fun e => by have := congrArg Fin.val e; simp at this; omega⟩
+  have hnonempty : eccCells D false true i ≠ [] := by
+    obtain ⟨j, hj⟩ := hex
+    intro e
+    have := (hcells (D.get i j)).mpr ⟨j, hj, rfl⟩
+    rw [e] at this; exact absurd this List.not_mem_nil
+  obtain ⟨hmem, hmax⟩ := hne hnonempty
+  have hatt := (hcells _).mp hmem
+  have hbound : ∀ j, j ≠ i → lenFun D i j ≤ (eccOf D false true i).toLen :=
+    fun j hj => hmax _ ((hcells _).mpr ⟨j, hj, rfl⟩)
+  refine ⟨hatt, hbound, ?_⟩
+  have hz : ∀ j, j ≠ i → zeroDiag' (lenFun D) i j = lenFun D i j := by
+    intro j hj; simp [zeroDiag', Ne.symm hj]
+  constructor
+  · intro htop
+    obtain ⟨j, hj, e⟩ := hatt
+    refine ⟨j, hj, ?_⟩
+    rw [← hD.eq_top_iff i j, hz j hj]
+    simp only [lenFun, ← e]; exact htop
+  · rintro ⟨j, hj, hno⟩
+    have := (hD.eq_top_iff i j).mpr hno
+    rw [hz j hj] at this
+    have hb := hbound j hj
+    rw [this] at hb
+    exact top_le_iff.mp hb
+
+/-- `ecc` under any flag combination, as coded: the largest unmasked cell of the row, NumPy's masked fill value `1e20` for a
+row all of whose cells are masked (e.g. `include_infinite=False` and a node that reaches nobody) -/
+theorem charpath_ecc_masked_spec (D : AMat Ext n) (incDiag incInf : Bool) (i : Fin n) :
+    (eccCells D incDiag incInf i = [] → eccOf D incDiag incInf i = maskedFill) ∧
+    (eccCells D incDiag incInf i ≠ [] → eccOf D incDiag incInf i ∈ eccCells D incDiag incInf i ∧
+      ∀ x ∈ eccCells D incDiag incInf i, x.toLen ≤ (eccOf D incDiag incInf i).toLen) :=
+  eccOf_spec D incDiag incInf i
+
+/-- **`charpath_radius_diameter_spec`**: `radius` is the smallest and `diameter` the largest eccentricity, both attained
+(any flags, `n ≥ 1`); with `charpath_ecc_spec`: the diameter is the largest distance between two distinct nodes, `∞` iff
+the graph is not strongly connected -/
+theorem charpath_radius_diameter_spec (D : AMat Ext n) (incDiag incInf : Bool) (hn : 1 ≤ n) :
+    ∃ r d, radiusDiameter D incDiag incInf = some (r, d) ∧
+      (∀ i, r.toLen ≤ (eccOf D incDiag incInf i).toLen ∧ (eccOf D incDiag incInf i).toLen ≤ d.toLen) ∧
+      (∃ i, r = eccOf D incDiag incInf i) ∧ (∃ i, d = eccOf D incDiag incInf i) := by
+  obtain ⟨rd, hrd⟩ := Option.isSome_iff_exists.mp (radiusDiameter_isSome D incDiag incInf hn)
+  exact ⟨rd.1, rd.2, hrd, radiusDiameter_spec D incDiag incInf rd.1 rd.2 hrd⟩
+
 /-- **`efficiency_bin_spec`** (global): the returned value is the mean inverse hop distance over the ordered pairs of
 distinct nodes, for every input with at least two nodes -/
 theorem efficiency_bin_spec (A : AMat Rat n) (hn : 2 ≤ n) :
@@ -583,6 +669,12 @@ example : (distBin cyc3).map (fun D => (charpath D false true, meanInvOff D)) =
     some ((some (.fin (3 / 2)), some (.fin (3 / 4))), some (.fin (3 / 4))) := by decide +kernel
 example : efficiencyBin cyc3 = some (some (.fin (3 / 4))) := by decide +kernel
 example : (distBin cyc3).map (fun D => (meanInvSpec D, meanSpec D)) = some (3 / 4, 3 / 2) := by decide +kernel
+example : (distBin cyc3).map (fun D => (eccOf D false true 0, radiusDiameter D false true)) = some (.fin 2, some (.fin 2, .fin 2)) := by
+  decide +kernel
+example : (distBin ex3).map (fun D => (eccOf D false true 0, eccOf D false false 2, radiusDiameter D false true)) =
+    some (.fin 1, maskedFill, some (.fin 1, .inf)) := by decide +kernel
+example : (breadth cyc3 0).map (fun r => (r.branch[(0 : Fin 3)], r.branch[(1 : Fin 3)], r.branch[(2 : Fin 3)])) = some (-1, 0, 1) := by
+  decide +kernel
 example : (distBin ex3).map (fun D => (charpath D false true).1) = some (some .inf) := by decide +kernel
 example : NonNeg cyc3 ∧ efficiencyWei cyc3 = some (some (.fin (3 / 4))) ∧ (routEfficiency .inv cyc3).1 = some (.fin (3 / 4)) := by
   decide +kernel
